@@ -35,7 +35,7 @@ TIERS = {
         nj=["MC_NJ_quick3.cfg", "MC_NJ_quick4.cfg", "MC_NJ_quick5.cfg"],
         upgma=["MC_UPGMA_quick3.cfg", "MC_UPGMA_quick4.cfg", "MC_UPGMA_quick5.cfg"],
         dist=["MC_Distance_quick_all.cfg", "MC_Distance_quick_pair.cfg", "MC_Distance_quick_s4.cfg",
-              "MC_Distance_quick_blocks.cfg"],
+              "MC_Distance_quick_blocks.cfg", "MC_Distance_quick_boundary.cfg"],
         calls=["MC_DistanceCalls_quick.cfg"],
         orders={3: "all", 4: 3, 5: 2, 6: 2},
         sample={},
@@ -46,7 +46,7 @@ TIERS = {
             "MC_NJ_thorough6.cfg", "MC_NJ_thorough6z.cfg"],
         upgma=["MC_UPGMA_quick3.cfg", "MC_UPGMA_quick4.cfg", "MC_UPGMA_thorough5.cfg", "MC_UPGMA_thorough6.cfg"],
         dist=["MC_Distance_thorough_all.cfg", "MC_Distance_thorough_pair.cfg", "MC_Distance_thorough_l3.cfg",
-              "MC_Distance_thorough_s4.cfg", "MC_Distance_thorough_blocks.cfg"],
+              "MC_Distance_thorough_s4.cfg", "MC_Distance_thorough_blocks.cfg", "MC_Distance_thorough_boundary.cfg"],
         calls=["MC_DistanceCalls_thorough4.cfg", "MC_DistanceCalls_thorough5.cfg"],
         orders={3: "all", 4: "all", 5: 3, 6: 3},
         sample={"MC_NJ_thorough6.cfg": 4000, "MC_NJ_thorough6z.cfg": 1500},
@@ -122,6 +122,7 @@ def check(run: Run):
     t_start = time.time()
     nontrivial = 0
     exhaustive = True
+    domain = {}
     pending = []  # (kind, cfg, AsyncResult)
     ctx = mp.get_context("fork")
     with Scratch("C15") as scratch, ctx.Pool(NPROC) as pool, ThreadPoolExecutor(max_workers=4) as ex:
@@ -166,7 +167,11 @@ def check(run: Run):
                 recs.sort(key=lambda r: json.dumps(r["to"]["seqs"]))
                 st["alignments"] = len(recs)
                 nontrivial += sum(any(p["diff"] > 0 for p in r["to"]["pairs"]) for r in recs)
-                plan = "full" if "blocks" in cfg else "small"
+                plan = "full" if "blocks" in cfg or "boundary" in cfg else "small"
+                for r in recs:  # how often each estimator's domain classes are met (exact, from TLC)
+                    for p in r["to"]["pairs"]:
+                        for est, cl in p["cls"].items():
+                            domain[f"{est}:{cl}"] = domain.get(f"{est}:{cl}", 0) + 1
                 for i, ch in enumerate(chunks(recs, 1 + len(recs) // (NPROC * 3))):
                     job = (ch, run.seed * 104729 + i, run.tier, plan)
                     pending.append((kind, cfg, pool.apply_async(R.replay_distance, (job,))))
@@ -174,6 +179,10 @@ def check(run: Run):
                 run.sample({"spec": "Distance", "cfg": cfg, "seqs": ["".join(s) for s in mid["to"]["seqs"]],
                             "pairs": mid["to"]["pairs"][:1]})
         stats["_wall"] = {"all_tlc_done_s": round(time.time() - t_start, 1)}
+        stats["estimator_domain_classes"] = dict(sorted(domain.items()))
+        for need in ("jc69:boundary", "jc69:outside", "tn93:boundary", "tn93:outside", "det:boundary", "det:outside"):
+            if not domain.get(need):
+                raise MachineryError(f"no alignment of this tier reaches the estimator domain class {need}")
         for kind, cfg, ar in pending:
             res = ar.get()
             st = stats[cfg]
@@ -209,9 +218,10 @@ def check(run: Run):
         "eq.7, Lake's paralinear, LogDet with and without the Tamura-Kumar correction) are applied to them in float64 "
         "by harness/replay_C15.formula and compared with rtol 1e-9 (observed noise on the unchanged tree <= 1e-15)",
         "estimator outcomes left open and not compared: hamming with no comparable column; TN93 when an average base "
-        "frequency is 0; paralinear/LogDet when a diagonal count is 0 (cogent3 substitutes pseudo-counts there) or "
-        "when a log argument is within 1e-9 of 0; saturated / undefined pairs are checked for the documented "
-        "NaN / ArithmeticError outcome only",
+        "frequency is 0; paralinear/LogDet when a diagonal count is 0 (cogent3 substitutes pseudo-counts there), equal "
+        "sequences without any valid column; whether a pair is inside, exactly on the boundary of, or outside an estimator's domain is decided by TLC "
+        "from exact integer log-argument numerators (no tolerance band); boundary, outside and undefined pairs must be "
+        "nan, raise ArithmeticError from distance_matrix(), be dropped by drop_invalid, and no matrix may hold inf",
         "NJ / UPGMA generators: <= 6 tips, lengths / heights from the cfg sets; the 6-tip NJ generators are replayed "
         "on a seeded sample in the thorough tier (TLC checks all of them)",
         "gnj with its default keep (5n candidates) is compared only for n <= 5, where every topology is retained "
